@@ -118,6 +118,25 @@ fn cases(args: &Args, rng: &mut Rng) -> Vec<C12Case> {
         v.push(mk(&format!("multi{i}"), a.clone(), b.clone(), &plan, f, (None, Some(0xFFFF_FFFB)), vec![], false));
         if i < 2 { v.push(mk(&format!("multi{i}-mt"), a, b, &plan, f, (None, None), vec![], true)); }
     }
+    // flow control: send buffers (sctp_max_buffered_amount) far smaller than the workload, several tasks and channels;
+    // and a DCEP OPEN / ACK that has to be sent by the run loop while the send buffer is over its limit (the run loop
+    // must not park in the senders' wait: nobody else processes the SACKs that free the credit)
+    for (i, f) in ["-", "A.DATA.2.drop+B.SACK.3.drop"].iter().enumerate() {
+        let a = vec![spec(1, Kind::RelOrd, true, 0), spec(2, Kind::RelUnord, false, 0)];
+        let b = vec![spec(1, Kind::RelOrd, true, 0)];
+        let mut plan = vec![];
+        for t in 0..2u8 { for j in 0..5usize { plan.push((0usize, [1u16, 2][(t as usize + j) % 2], [6000usize, 3000, 9000][j % 3], t)); } }
+        for j in 0..4usize { plan.push((1usize, 1u16, 7000, 0u8)); let _ = j; }
+        let mut c = mk(&format!("flow-control{i}"), a, b, &plan, f, (None, None), vec![], false);
+        for e in c.case.cfg.iter_mut() { e.max_buffered = 8000; }
+        v.push(c);
+    }
+    for d in [2u32, 5, 10] {
+        let mut c = mk(&format!("dcep-ack-with-full-send-buffer-d{d}"), vec![spec(2, Kind::RelOrd, false, 0), spec(1, Kind::RelOrd, true, 0)], vec![spec(1, Kind::RelOrd, true, 0)],
+            &[(1, 1, 20_000, 0), (1, 1, 20_000, 0), (1, 1, 20_000, 0), (1, 1, 20_000, 0), (0, 2, 100, 0)], &format!("A.DATA.1.delay{d}"), (None, None), vec![], false);
+        for e in c.case.cfg.iter_mut() { e.max_buffered = 6000; }
+        v.push(c);
+    }
     // an impatient application: send() from the first moment on, before the association / the in-band channel is open
     // (task ids ≥ 200 do not wait for Open); whatever send() accepted on a reliable channel has to arrive
     for (i, f) in ["-", "B.INITACK.1.drop", "B.COOKIEACK.1.drop", "A.DATA.1.drop"].iter().enumerate() {
@@ -125,6 +144,14 @@ fn cases(args: &Args, rng: &mut Rng) -> Vec<C12Case> {
         let b = vec![spec(1, Kind::RelOrd, true, 0)];
         let plan = [(0usize, 2u16, 100usize, 200u8), (0, 2, 3000, 200), (0, 2, 7, 200), (0, 1, 50, 201), (0, 1, 60, 201), (1, 1, 9, 200)];
         v.push(mk(&format!("send-before-open{i}"), a, b, &plan, f, (None, None), vec![], false));
+    }
+    // W3: an in-band PR channel whose creator sends right after creating it (eager task) and ONE lost datagram — the OPEN
+    // itself or the first message right behind it: the OPEN stays reliable, the channel opens, later messages arrive
+    for (i, (ord, f)) in [(true, "A.TSN.0.dropn1"), (false, "A.TSN.0.dropn1"), (true, "A.TSN.1.dropn1"), (false, "A.TSN.0.dropn1+A.TSN.1.dropn1")].iter().enumerate() {
+        let mut c = mk(&format!("pr-inband-eager-one-loss{i}"), vec![spec(2, if *ord { Kind::RexOrd } else { Kind::RexUnord }, false, 0)], vec![],
+            &[(0, 2, 100, 200), (0, 2, 50, 200), (0, 2, 30, 0), (0, 2, 40, 0)], f, (None, None), vec![], false);
+        c.case.msgs[2].phase = 1; c.case.msgs[3].phase = 1;
+        v.push(c);
     }
     // an ordered partially reliable channel whose very first message is abandoned still delivers the later ones
     // (the later ones are sent once the link is quiet again: phase 1)
@@ -250,6 +277,14 @@ fn kind_of(c: &ChanSpec) -> (bool, bool) { (c.ordered, c.max_retransmits.is_some
 /// property oracles on the implementation
 fn oracle(c: &Case, o: &Outcome) -> Vec<(String, String)> {
     let mut fails = vec![];
+    // the wire of these runs — channel closes (RE-CONFIG), teardown (ABORT / SHUTDOWN-ACK / SHUTDOWN-COMPLETE), DCEP, FORWARD-TSN,
+    // scripted datagrams — under C13's packet rules (size, CRC-32C, verification tag, consecutive TSNs) and its quiescence
+    // rule; the window clause stays C13's own (its two recorded findings would show up here under C12's name).
+    // Injected datagrams (End::Inject / End::Script) are the harness' own and are not on `o.wire`.
+    for (sig, d) in crate::props::c13::wire_verdict(&o.wire).fails { fails.push((format!("wire:{sig}"), d)); }
+    for side in 0..2 {
+        for (sig, d) in crate::props::c13::txw_lines(side, c, o).2 { if sig.starts_with("quiescence:") && !sig.starts_with("quiescence:SACK") { fails.push((sig, d)); } }   // (the "one unowed SACK per datagram" allowance is only exact on C13's single-task runs)
+    }
     let any_pr = c.chans.iter().flatten().any(|ch| kind_of(ch).1);
     // channel table: every channel created anywhere, by id
     let mut specs: Vec<ChanSpec> = vec![];
@@ -297,7 +332,7 @@ fn oracle(c: &Case, o: &Outcome) -> Vec<(String, String)> {
             if !pr && delivered.len() < submitted.len() && !fails.iter().any(|f| f.0.starts_with("delivered:")) {
                 // excused only by a close the case itself asked for, or by a channel DCEP cannot carry
                 let uncarriable = ch.label.len() > 65_535 || ch.protocol.len() > 65_535;
-                let excused = (0..2).any(|s| c.end.closes_side(s)) || c.closes.iter().any(|(_, id)| *id == ch.id) || uncarriable;
+                let excused = c.closes.iter().any(|(_, id)| *id == ch.id) || uncarriable;   // (a teardown only starts after everything was delivered)
                 if !excused {
                     fails.push((if any_pr { "stall:reliable-channel-behind-abandoned-chunk".to_string() } else { "stall".to_string() },
                         format!("{who}: {} of {} delivered after {} ms", delivered.len(), submitted.len(), o.elapsed_ms)));
@@ -324,15 +359,14 @@ fn oracle(c: &Case, o: &Outcome) -> Vec<(String, String)> {
     // and they do open (DCEP cannot carry a label / protocol longer than 65535 bytes: those must never open)
     for side in 0..2 {
         for ch in c.chans[side].iter().filter(|c| !c.negotiated) {
-            let creator_open = o.chans_final[side].iter().any(|f| f.id == ch.id && f.state != 0);
+            let creator_open = o.events[side].iter().any(|(id, e)| *id == ch.id && matches!(e, DataChannelEvent::Open));   // (not the final state: a teardown closes never-opened channels too)
             let carriable = ch.label.len() <= 65_535 && ch.protocol.len() <= 65_535;
             let at_peer = o.chans_final[1 - side].iter().find(|f| f.id == ch.id);
             if !carriable {
                 if creator_open || at_peer.is_some() { fails.push(("dcep:uncarriable-channel-opened".into(), format!("ch{}: label {} bytes", ch.id, ch.label.len()))); }
                 continue;
             }
-            let closed = o.snaps.iter().any(|s| s.state == SctpState::Closed);
-            if o.connected && !closed && !creator_open { fails.push(("dcep:channel-never-opened".into(), format!("ch{} created by {} is still Connecting after {} ms", ch.id, ["A", "B"][side], o.elapsed_ms))); }
+            if o.connected && !creator_open { fails.push(("dcep:channel-never-opened".into(), format!("ch{} created by {} is still Connecting after {} ms", ch.id, ["A", "B"][side], o.elapsed_ms))); }
             match at_peer {
                 None => if creator_open { fails.push(("dcep:channel-missing-at-peer".into(), format!("ch{} created by {}", ch.id, ["A", "B"][side]))); },
                 Some(f) => if f.label != ch.label || f.protocol != ch.protocol || f.ordered != ch.ordered || f.max_retransmits != ch.max_retransmits || f.max_lifetime != ch.max_lifetime {
@@ -357,6 +391,57 @@ fn run_one(c: &C12Case, port: u16) -> Outcome {
 
 /// canonical re-runnable text: `c12 <name>` of the quick/thorough list, or a full case line
 fn c12_text(c: &C12Case) -> String { format!("{} {}", c.name, case_text(&c.case)) }
+
+/// one live PeerConnection pair: (Close counts [offerer channel, answerer channel], oracle problems); Err = the pair could
+/// not be set up
+async fn pc_live(variant: usize) -> Result<(Vec<usize>, Vec<(String, String)>), String> {
+    use crate::props::c10::pair::{Cfg, IceOpt, Knobs, Mix, Mode, Pair, wait_open};
+    let mut problems = vec![];
+    let cfg = Cfg { mode: Mode::WebRtc, mix: Mix::Data, bundle: 0, mux_require: true, ice: IceOpt::Full, latching: false, legacy: false, p_offers: true };
+    let mut p = Pair::create(cfg, &Knobs::default());
+    let r: Result<(), String> = async {
+        p.negotiate().await?;
+        p.wait_connected(Duration::from_secs(10)).await?;
+        p.accept_channel(Duration::from_secs(5)).await?;
+        Ok(())
+    }.await;
+    if let Err(e) = r { p.off.pc.close(); p.ans.pc.close(); return Err(e); }
+    let (odc, adc) = (p.off.dc.clone().ok_or("no offerer channel")?, p.ans.dc.clone().ok_or("no answerer channel")?);
+    if let Err(e) = wait_open(&odc, Duration::from_secs(5)).await { p.off.pc.close(); p.ans.pc.close(); return Err(e); }
+    if adc.label != odc.label || adc.id != odc.id { problems.push(("dcep:parameters-differ-at-peer".to_string(), format!("offerer created ({}, {:?}), answerer sees ({}, {:?})", odc.id, odc.label, adc.id, adc.label))); }
+    if variant == 1 { if let Some(t) = p.off.pc.verif_lc_sctp_transport() { let _ = t.close_data_channel(odc.id).await; } tokio::time::sleep(Duration::from_millis(100)).await; }
+    if variant == 0 {
+        // a channel created by each side after the connection is up, data sent right away (RFC 8832 §6)
+        async fn expect(pc: &rustrtc::PeerConnection, label: &'static str, msg: &'static [u8]) -> Option<u16> {
+            let pc = pc.clone();
+            tokio::time::timeout(Duration::from_secs(4), async move {
+                loop { match pc.recv().await { Some(rustrtc::PeerConnectionEvent::DataChannel(dc)) if dc.label == label => {
+                        loop { match dc.recv().await { Some(DataChannelEvent::Message(m)) => return if m.as_ref() == msg { Some(dc.id) } else { None }, Some(_) => {}, None => return None } } }
+                    Some(_) => {}, None => return None } }
+            }).await.ok().flatten()
+        }
+        let late = p.off.pc.create_data_channel("late", None).map_err(|e| format!("create late channel: {e}"))?;
+        if let Err(e) = p.off.pc.send_data(late.id, b"sent right after create_data_channel").await { problems.push(("dcep:data-sent-right-after-create-refused".to_string(), e.to_string())); }
+        let back = p.ans.pc.create_data_channel("back", None).map_err(|e| format!("create back channel: {e}"))?;
+        if let Err(e) = p.ans.pc.send_data(back.id, b"answerer's channel").await { problems.push(("dcep:data-sent-right-after-create-refused".to_string(), e.to_string())); }
+        let (g1, g2) = tokio::join!(expect(&p.ans.pc, "late", b"sent right after create_data_channel"), expect(&p.off.pc, "back", b"answerer's channel"));
+        if g1 != Some(late.id) { problems.push(("dcep:data-sent-right-after-create-lost".to_string(), format!("the offerer's channel 'late' (id {}) / its first message did not appear at the answerer (got {g1:?})", late.id))); }
+        if g2 != Some(back.id) { problems.push(("dcep:channel-missing-at-peer".to_string(), format!("the answerer's channel 'back' (id {}) / its first message did not appear at the offerer (got {g2:?})", back.id))); }
+        let ids = [odc.id, late.id, back.id];
+        if ids[0] == ids[1] || ids[0] == ids[2] || ids[1] == ids[2] || ids[0] % 2 != ids[1] % 2 || ids[0] % 2 == ids[2] % 2 {
+            problems.push(("pc:channel-ids-collide".to_string(), format!("stream ids: offerer {} and {}, answerer {} (each side must keep to its own parity)", ids[0], ids[1], ids[2])));
+        }
+    }
+    p.off.pc.close(); p.ans.pc.close();
+    tokio::time::sleep(Duration::from_millis(300)).await;
+    let mut counts = vec![];
+    for dc in [&odc, &adc] {
+        let mut n = 0;
+        while let Some(Some(ev)) = futures::FutureExt::now_or_never(tokio::task::unconstrained(dc.recv())) { if matches!(ev, DataChannelEvent::Close) { n += 1; } }
+        counts.push(n);
+    }
+    Ok((counts, problems))
+}
 
 pub fn run(args: &Args) {
     let mut rng = Rng::new(args.seed);
@@ -446,6 +531,15 @@ pub fn run(args: &Args) {
                 let mut msg_of: Vec<usize> = vec![];
                 let mut next_ssn = [0u16; 4];
                 let mut tsn = base;
+                // in-band channels: the DCEP OPEN (reliable, unordered flag, SSN 0) of a stream may still be outstanding
+                // right in front of its first messages (message number usize::MAX = "no message")
+                for sid in [1u16, 2, 3] { if rng.chance(1, 3) {
+                    let acked = rng.chance(1, 5);
+                    q.push(hook::VRecord { tsn, len: if acked { 0 } else { 40 }, sent_ms: 0, transmit_count: *rng.pick(&[1u32, 2, 5]), missing_reports: 0, abandoned: false, fast_retransmit: false,
+                        needs_retransmit: !acked && rng.chance(1, 3), fast_retransmit_ms: None, in_flight: !acked && rng.chance(2, 3), acked, stream_id: sid, ssn: 0, flags: 7, max_retransmits: None, has_expiry: false });
+                    msg_of.push(usize::MAX);
+                    tsn = tsn.wrapping_add(1);
+                } }
                 let nmsg = rng.range(1, 5) as usize;
                 for m in 0..nmsg {
                     let sid = *rng.pick(&[1u16, 2, 2, 3]);
@@ -488,7 +582,11 @@ pub fn run(args: &Args) {
                     let gone_or_abandoned = match after.iter().find(|x| x.tsn == r.tsn) { None => true, Some(x) => x.abandoned };
                     if gone_or_abandoned && !due.contains(&tsn_msg(r.tsn)) {
                         collateral += 1;
-                        let kind = if r.flags & 4 != 0 { "unordered-channel-ssn-always-0" } else { "ordered-channel" };
+                        // the one known class: a PR record of an unordered stream on which another message was due
+                        let due_on_stream = q.iter().any(|x| x.stream_id == r.stream_id && due.contains(&tsn_msg(x.tsn)));
+                        let reliable = r.max_retransmits.is_none() && !r.has_expiry;
+                        let kind = if reliable { "reliable-chunk-abandoned" } else if r.flags & 4 != 0 && due_on_stream { "unordered-channel-ssn-always-0" }
+                            else if due_on_stream { "ordered-channel" } else { "nothing-due-on-its-stream" };
                         run.fail(&format!("pr:message-abandoned-without-cause:{kind}"), &format!("prsend {input}"), &format!("TSN {} (stream {}, message #{}) was abandoned although no chunk of its message exhausted its retransmissions or lifetime", r.tsn, r.stream_id, tsn_msg(r.tsn)));
                         break;
                     }
@@ -527,57 +625,66 @@ pub fn run(args: &Args) {
     }
     // … and on a live association: two real PeerConnections connected over loopback ICE / DTLS (the shared C10 pair),
     // one in-band channel open at both ends; the application closes the channel and / or the PeerConnection — the
-    // association's cleanup guard and `PeerConnection::close` both walk the channel list, each channel sees one Close
+    // association's cleanup guard and `PeerConnection::close` both walk the channel list, each channel sees one Close.
+    // Variant 0 also creates channels on BOTH sides after the connection is up: each appears at the peer
+    // (`PeerConnectionEvent::DataChannel`) with its label, ids do not collide, and data sent right after creation arrives.
+    // A pair that cannot be set up is retried; three failures in a row are a failure of the check, not a skipped case.
     {
-        use crate::props::c10::pair::{Cfg, IceOpt, Knobs, Mix, Mode, Pair, wait_open};
         let rt = tokio::runtime::Builder::new_multi_thread().worker_threads(4).enable_all().build().unwrap();
         for variant in 0..2 {
-            let late_flag = std::sync::Arc::new(std::sync::atomic::AtomicBool::new(false));
-            let lf = late_flag.clone();
-            let res: Result<Vec<usize>, String> = rt.block_on(async move {
-                let mut late_lost = false;
-                let cfg = Cfg { mode: Mode::WebRtc, mix: Mix::Data, bundle: 0, mux_require: true, ice: IceOpt::Full, latching: false, legacy: false, p_offers: true };
-                let mut p = Pair::create(cfg, &Knobs::default());
-                p.negotiate().await?;
-                p.wait_connected(Duration::from_secs(10)).await?;
-                p.accept_channel(Duration::from_secs(5)).await?;
-                let (odc, adc) = (p.off.dc.clone().ok_or("no offerer channel")?, p.ans.dc.clone().ok_or("no answerer channel")?);
-                wait_open(&odc, Duration::from_secs(5)).await?;
-                if variant == 1 { if let Some(t) = p.off.pc.verif_lc_sctp_transport() { let _ = t.close_data_channel(odc.id).await; } tokio::time::sleep(Duration::from_millis(100)).await; }
-                // RFC 8832 §6: the opener may send right after creating the channel (its OPEN is sent from a spawned task:
-                // the data must not overtake it) — the peer gets the channel and the message
-                if variant == 0 {
-                    let late = p.off.pc.create_data_channel("late", None).map_err(|e| format!("create late channel: {e}"))?;
-                    p.off.pc.send_data(late.id, b"sent right after create_data_channel").await.map_err(|e| format!("immediate send refused: {e}"))?;
-                    let pc = p.ans.pc.clone();
-                    let got = tokio::time::timeout(Duration::from_secs(4), async move {
-                        loop { match pc.recv().await { Some(rustrtc::PeerConnectionEvent::DataChannel(dc)) if dc.label == "late" => {
-                                loop { match dc.recv().await { Some(DataChannelEvent::Message(m)) => return m.as_ref() == b"sent right after create_data_channel", Some(_) => {}, None => return false } } }
-                            Some(_) => {}, None => return false } }
-                    }).await;
-                    if got != Ok(true) { late_lost = true; }
+            let mut last_err = String::new();
+            let mut done = false;
+            for _attempt in 0..3 {
+                match rt.block_on(pc_live(variant)) {
+                    Ok((counts, problems)) => {
+                        for (sig, d) in problems { run.fail(&sig, &format!("pcclose-live {variant}"), &d); }
+                        if counts.iter().any(|n| *n > 1) { run.fail("close:more-than-once", &format!("pcclose-live {variant}"), &format!("connected PeerConnection pair closed: Close events [offerer, answerer] = {counts:?}")); }
+                        if counts.iter().any(|n| *n == 0) { run.fail("close:none-from-peer-connection-close", &format!("pcclose-live {variant}"), &format!("{counts:?}")); }
+                        run.count("pcclose_live_runs");
+                        done = true;
+                        break;
+                    }
+                    Err(e) => { run.count("pcclose_live_setup_retries"); last_err = e; }
                 }
-                p.off.pc.close(); p.ans.pc.close();
-                tokio::time::sleep(Duration::from_millis(300)).await;
-                let mut counts = vec![];
-                for dc in [&odc, &adc] {
-                    let mut n = 0;
-                    while let Some(Some(ev)) = futures::FutureExt::now_or_never(tokio::task::unconstrained(dc.recv())) { if matches!(ev, DataChannelEvent::Close) { n += 1; } }
-                    counts.push(n);
-                }
-                lf.store(late_lost, std::sync::atomic::Ordering::SeqCst);
-                Ok(counts)
-            });
-            if late_flag.load(std::sync::atomic::Ordering::SeqCst) { run.fail("dcep:data-sent-right-after-create-lost", "pcclose-live 0", "a message sent immediately after create_data_channel on an established connection never reached the peer's new channel"); }
-            match res {
-                Ok(counts) => {
-                    if counts.iter().any(|n| *n > 1) { run.fail("close:more-than-once", &format!("pcclose-live {variant}"), &format!("connected PeerConnection pair closed: Close events [offerer, answerer] = {counts:?}")); }
-                    if counts.iter().any(|n| *n == 0) { run.fail("close:none-from-peer-connection-close", &format!("pcclose-live {variant}"), &format!("{counts:?}")); }
-                    run.count("pcclose_live_runs");
-                }
-                Err(e) => { run.count("pcclose_live_setup_failed"); eprintln!("pcclose-live {variant}: setup failed: {e}"); }
             }
+            if !done { run.fail("pc:live-pair-could-not-be-set-up", &format!("pcclose-live {variant}"), &format!("three attempts to connect two PeerConnections and open a channel failed; last error: {last_err}")); }
         }
+    }
+    // ordering of the DCEP OPEN against senders, as a chosen interleaving (hooks gate_arm / gate_release / verif_dcep_open_queued):
+    // `send_dcep_open` is held at the point just before it queues the OPEN — the "OPEN is queued" mark (which lets a
+    // sender skip queuing it) must not be set yet
+    {
+        let rt = tokio::runtime::Builder::new_current_thread().enable_all().build().unwrap();
+        let problems: Vec<(String, String)> = rt.block_on(async {
+            let mut problems = vec![];
+            let ep = Endpoint::new(55_800, 55_801, true, &EpCfg::default(), &[spec(2, Kind::RelOrd, false, 0)]).await;
+            for _ in 0..20 { tokio::task::yield_now().await; }   // the (idle) run loop has started and waits for DTLS
+            ep.sctp.verif_set_state(SctpState::Connected);
+            let dc = ep.dcs[0].clone();
+            let open_queued = |ep: &Endpoint| ep.sctp.verif_snapshot().outbound_queue.iter().any(|c| c.3 == 50);
+            hook::gate_arm(55_800, "dcep_open_before_queue");
+            let (sctp, dc2) = (ep.sctp.clone(), dc.clone());
+            let h = tokio::spawn(async move { sctp.send_dcep_open(&dc2).await });
+            for _ in 0..50 { tokio::task::yield_now().await; }
+            if rustrtc::transports::sctp::SctpTransport::verif_dcep_open_queued(&dc) && !open_queued(&ep) {
+                problems.push(("dcep:open-marked-queued-before-it-is".to_string(), "send_dcep_open is held just before it queues the OPEN, the OPEN is not in the outbound queue, yet the mark that lets senders skip the OPEN is set".to_string()));
+            }
+            hook::gate_release(55_800, "dcep_open_before_queue");
+            let _ = tokio::time::timeout(Duration::from_secs(2), h).await;
+            if !(rustrtc::transports::sctp::SctpTransport::verif_dcep_open_queued(&dc) && open_queued(&ep)) {
+                problems.push(("dcep:open-not-queued-by-send-dcep-open".to_string(), "after send_dcep_open returned the OPEN is not queued / not marked".to_string()));
+            }
+            // a sender now skips the OPEN and its data is behind it; a second send_dcep_open queues nothing
+            let _ = ep.sctp.send_data(2, b"after").await;
+            let _ = ep.sctp.send_dcep_open(&dc).await;
+            let q = ep.sctp.verif_snapshot().outbound_queue;
+            let kinds: Vec<u32> = q.iter().map(|c| c.3).collect();
+            if kinds != vec![50, 53] { problems.push(("dcep:open-not-exactly-once-ahead-of-data".to_string(), format!("outbound queue PPIDs {kinds:?}, expected [50, 53]"))); }
+            ep.shutdown();
+            problems
+        });
+        for (sig, d) in problems { run.fail(&sig, "openmark", &d); }
+        run.count("openmark_runs");
     }
     let cs = cases(args, &mut rng);
     let nthreads = std::env::var("VERIF_THREADS").ok().and_then(|v| v.parse().ok()).unwrap_or(6usize);
